@@ -309,7 +309,8 @@ def run_difftest(ctx, script, n, component, args=None):
     import re
     seed = int(ctx.rng.integers(2 ** 31))
     path = os.path.join(VERIF, 'harness', 'difftests', script)
-    env = dict(os.environ, RSOMEV_LEAN_DIR=LEAN_DIR, RSOME_REPO=REPO)
+    env = dict(os.environ, RSOMEV_LEAN_DIR=LEAN_DIR, RSOME_REPO=REPO,
+               PYTHONPATH=REPO + (os.pathsep + os.environ['PYTHONPATH'] if os.environ.get('PYTHONPATH') else ''))   # the child imports rsome from the same tree
     argv = [str(a) for a in args] if args is not None else [str(seed), str(n)]
     p = subprocess.run(['/venv/bin/python', path] + argv, capture_output=True, text=True, timeout=3600, env=env)
     m = re.search(r'cases (\d+) mismatches (\d+)', p.stdout)
